@@ -122,6 +122,12 @@ def impl_op(w, utils, op):
         if op[0] == 'units.concfmt':
             cx = w.cx[0]
             cx.concentration = ('initial', op[1], op[2])
+            if (len(repr(op[1])) + len(op[2]) + len(op[3])) % 2:
+                # the concentration belongs to the complex, not to a representation: a `turns` assignment in between (any value,
+                # also one that does not move a one-strand complex) leaves it as it was set
+                cx.turns = cx.turns + 1
+                if cx.concentration != ('initial', op[1], op[2]):
+                    return 'concentration-changed-by-a-turns-assignment ' + repr(cx.concentration)
             m, c, u = cx.concentrationformat(op[3])
             if (m, u) != ('initial', op[3]):
                 return 'bad-triple'
